@@ -18,12 +18,107 @@ type batchDisp struct {
 	low *ssa.Phi
 }
 
+// mergeWay is one way through the merges (phis below a loop head) that a set of values passes: sel resolves
+// each phi of those merge blocks to the value that comes in on the chosen edge, preds are the chosen
+// predecessor blocks, conds the branch outcomes that hold on the chosen edges.
+type mergeWay struct {
+	sel   func(ssa.Value) ssa.Value
+	preds []*ssa.BasicBlock
+	conds []an.DomCond
+}
+
+// mergeWays enumerates the consistent ways through the merge blocks found in the operand trees of vals
+// (through sums, differences and conversions), not counting the loop head itself.
+func mergeWays(vals []ssa.Value, head *ssa.BasicBlock) []mergeWay {
+	var merges []*ssa.BasicBlock
+	seenB := map[*ssa.BasicBlock]bool{}
+	var find func(v ssa.Value, d int)
+	find = func(v ssa.Value, d int) {
+		if v == nil || d > 12 {
+			return
+		}
+		switch x := v.(type) {
+		case *ssa.Phi:
+			if x.Block() == head {
+				return
+			}
+			if !seenB[x.Block()] {
+				seenB[x.Block()] = true
+				merges = append(merges, x.Block())
+			}
+			for _, e := range x.Edges {
+				find(e, d+1)
+			}
+		case *ssa.BinOp:
+			find(x.X, d+1)
+			find(x.Y, d+1)
+		case *ssa.Convert:
+			find(x.X, d+1)
+		case *ssa.ChangeType:
+			find(x.X, d+1)
+		}
+	}
+	for _, v := range vals {
+		find(v, 0)
+	}
+	if len(merges) > 5 {
+		return nil
+	}
+	var out []mergeWay
+	choice := make([]int, len(merges))
+	for {
+		ch := append([]int{}, choice...)
+		w := mergeWay{}
+		w.sel = func(v ssa.Value) ssa.Value {
+			if ph, ok := v.(*ssa.Phi); ok {
+				for k, m := range merges {
+					if ph.Block() == m {
+						return ph.Edges[ch[k]]
+					}
+				}
+			}
+			return nil
+		}
+		truth := map[string]bool{}
+		feasible := true
+		for k, m := range merges {
+			pr := m.Preds[ch[k]]
+			w.preds = append(w.preds, pr)
+			for _, c := range an.EdgeConds(pr, m) {
+				if old, has := truth[c.Cond]; has && old != c.True {
+					feasible = false
+				}
+				truth[c.Cond] = c.True
+				w.conds = append(w.conds, c)
+			}
+		}
+		if feasible {
+			out = append(out, w)
+		}
+		k := 0
+		for k < len(choice) {
+			choice[k]++
+			if choice[k] < len(merges[k].Preds) {
+				break
+			}
+			choice[k] = 0
+			k++
+		}
+		if k == len(choice) {
+			break
+		}
+	}
+	return out
+}
+
 // batchTiling: a function hands a list to worker goroutines in batches ("go worker(list[lo:hi])").  Decides
 // that the batches tile the list: the first batch starts at 0, the next one starts where the previous one
 // ended, the loop is left only through a batch that runs to the end of the list ("list[lo:]"), and where that
 // last batch is conditional, the condition under which it is skipped implies that nothing is left.  The last
-// part is an inductive invariant over the loop's variables, len(list) = lo + counter, checked on every edge
-// into the loop head with the branch outcomes that hold on that edge.
+// part is an inductive invariant over the loop's variables, checked on every way into the loop head with the
+// branch outcomes that hold on that way: either len(list) = lo + counter (a list grown by append and a
+// counter that is reset with each batch), or "progress == mark exactly when lo == index" (a running size
+// compared with its value at the last batch, an index that counts the elements stored).
 func batchTiling(r *core.Run, p *core.Program, rule string, fn *ssa.Function, wantLoops int) {
 	type disp = batchDisp
 	groups := map[*ssa.BasicBlock][]disp{}
@@ -57,12 +152,11 @@ func batchTiling(r *core.Run, p *core.Program, rule string, fn *ssa.Function, wa
 		}
 	}
 	sort.Slice(heads, func(i, j int) bool { return heads[i].Index < heads[j].Index })
-	r.Check(len(heads) == wantLoops, rule, "batches/loops", p.Pos(fn.Pos()), fmt.Sprintf("%d batching loops", wantLoops), fmt.Sprintf("%d batching loops recognised in %s (expected %d)", len(heads), core.FuncName(fn), wantLoops))
-	linEq := func(a, b map[string]int64) bool { return c13LinEq(a, b) }
+	r.Check(len(heads) == wantLoops, rule, "batches/loops/"+core.FuncName(fn), p.Pos(fn.Pos()), fmt.Sprintf("%d batching loops", wantLoops), fmt.Sprintf("%d batching loops recognised in %s (expected %d)", len(heads), core.FuncName(fn), wantLoops))
 	for n, h := range heads {
 		ds := groups[h]
 		body := an.LoopBody(h)
-		key := fmt.Sprintf("batches/loop#%d", n)
+		key := fmt.Sprintf("batches/%s/loop#%d", core.FuncName(fn), n)
 		pos := p.Pos(ds[0].g.Pos())
 		var bad []string
 		lo := ds[0].low
@@ -80,7 +174,8 @@ func batchTiling(r *core.Run, p *core.Program, rule string, fn *ssa.Function, wa
 				bad = append(bad, "a bounded batch is handed over outside the loop")
 			}
 		}
-		// edges into the head
+		lp := &batchLoop{p: p, h: h, body: body, lo: lo, ds: ds}
+		// ways into the head
 		for i, pr := range h.Preds {
 			in := lo.Edges[i]
 			if !body[pr] {
@@ -89,23 +184,21 @@ func batchTiling(r *core.Run, p *core.Program, rule string, fn *ssa.Function, wa
 				}
 				continue
 			}
-			var on []disp
-			for _, d := range ds {
-				if d.sl.High != nil && (d.g.Block() == pr || d.g.Block().Dominates(pr)) {
-					on = append(on, d)
+			for _, w := range mergeWays([]ssa.Value{in}, h) {
+				on := lp.onWay(pr, w)
+				form := an.LinFormWith(in, w.sel)
+				switch len(on) {
+				case 0:
+					if !c13LinEq(form, an.LinForm(lo)) {
+						bad = append(bad, "the position moves ("+an.Anon(an.LinString(form))+") on a path that hands over no batch")
+					}
+				case 1:
+					if !c13LinEq(form, an.LinFormWith(on[0].sl.High, w.sel)) {
+						bad = append(bad, "after the batch ["+an.Anon(an.Expr(on[0].sl.Low))+":"+an.Anon(an.LinString(an.LinForm(on[0].sl.High)))+"] the next one starts at "+an.Anon(an.LinString(form)))
+					}
+				default:
+					bad = append(bad, "more than one batch on one pass of the loop")
 				}
-			}
-			switch len(on) {
-			case 0:
-				if !linEq(an.LinForm(in), an.LinForm(lo)) {
-					bad = append(bad, "the position moves ("+an.Anon(an.LinString(an.LinForm(in)))+") on a path that hands over no batch")
-				}
-			case 1:
-				if !linEq(an.LinForm(in), an.LinForm(on[0].sl.High)) {
-					bad = append(bad, "after the batch ["+an.Anon(an.Expr(on[0].sl.Low))+":"+an.Anon(an.LinString(an.LinForm(on[0].sl.High)))+"] the next one starts at "+an.Anon(an.LinString(an.LinForm(in))))
-				}
-			default:
-				bad = append(bad, "more than one batch on one pass of the loop")
 			}
 		}
 		// leaving the loop
@@ -117,27 +210,51 @@ func batchTiling(r *core.Run, p *core.Program, rule string, fn *ssa.Function, wa
 			}
 			return false
 		}
-		for b := range body {
-			for _, s := range b.Succs {
-				if body[s] || hasFlush(s) {
+		doneExit := map[*ssa.BasicBlock]bool{}
+		var exitBlocks []*ssa.BasicBlock
+		for _, b := range fn.Blocks {
+			if body[b] {
+				exitBlocks = append(exitBlocks, b)
+			}
+		}
+		for _, b := range exitBlocks {
+			for _, s0 := range b.Succs {
+				if body[s0] {
 					continue
 				}
+				// straight on to the block that decides about the last batch
+				s := s0
+				for k := 0; k < 4 && !hasFlush(s) && len(s.Succs) == 1; k++ {
+					s = s.Succs[0]
+				}
+				if hasFlush(s) {
+					continue
+				}
+				// between the loop head and this exit no batch may have been handed over: the exit test sees the head's state
+				for _, d := range ds {
+					if d.sl.High != nil && (d.g.Block() == b || d.g.Block().Dominates(b)) {
+						bad = append(bad, "the loop is left after a batch was handed over in the same pass")
+					}
+				}
+				if doneExit[s] {
+					continue
+				}
+				doneExit[s] = true
 				iff, isIf := s.Instrs[len(s.Instrs)-1].(*ssa.If)
 				if !isIf || len(s.Succs) != 2 || hasFlush(s.Succs[0]) == hasFlush(s.Succs[1]) {
-					bad = append(bad, "the loop is left at "+p.Pos(an.InstrPos(s.Instrs[0]))+" without handing over the rest of the list")
+					bad = append(bad, "the loop is left at "+p.Pos(blockPos(s))+" without handing over the rest of the list")
 					continue
 				}
-				skip := s.Succs[0]
-				if hasFlush(skip) {
-					skip = s.Succs[1]
-				}
-				if b != h {
-					bad = append(bad, "the conditional last batch is reached from inside the loop body")
+				skipOnTrue := !hasFlush(s.Succs[0])
+				why1 := lp.skipByCounter(flush[0], iff, skipOnTrue)
+				if why1 == "" {
 					continue
 				}
-				if why := batchSkipJustified(p, h, body, lo, flush[0], iff, skip == s.Succs[0]); why != "" {
-					bad = append(bad, why)
+				why2 := lp.skipByProgress(iff, skipOnTrue)
+				if why2 == "" {
+					continue
 				}
+				bad = append(bad, why1+" / "+why2)
 			}
 		}
 		if len(flush) == 0 {
@@ -148,9 +265,58 @@ func batchTiling(r *core.Run, p *core.Program, rule string, fn *ssa.Function, wa
 	}
 }
 
-// batchSkipJustified: the last batch list[lo:] is skipped when the If in the exit block goes the given way.
-// Returns "" when that outcome implies len(list) == lo.
-func batchSkipJustified(p *core.Program, h *ssa.BasicBlock, body map[*ssa.BasicBlock]bool, lo *ssa.Phi, flush batchDisp, iff *ssa.If, skipOnTrue bool) string {
+type batchLoop struct {
+	p    *core.Program
+	h    *ssa.BasicBlock
+	body map[*ssa.BasicBlock]bool
+	lo   *ssa.Phi
+	ds   []batchDisp
+}
+
+// onWay: the bounded batches handed over on the way that ends with the back edge from pr and passes the
+// merges as chosen in w.
+func (lp *batchLoop) onWay(pr *ssa.BasicBlock, w mergeWay) []batchDisp {
+	var on []batchDisp
+	for _, d := range lp.ds {
+		if d.sl.High == nil {
+			continue
+		}
+		blk := d.g.Block()
+		hit := blk == pr || blk.Dominates(pr)
+		for _, q := range w.preds {
+			if blk == q || blk.Dominates(q) {
+				hit = true
+			}
+		}
+		if hit {
+			on = append(on, d)
+		}
+	}
+	return on
+}
+
+func relHolds(rel token.Token, a, b int64) bool {
+	switch rel {
+	case token.EQL:
+		return a == b
+	case token.NEQ:
+		return a != b
+	case token.LSS:
+		return a < b
+	case token.LEQ:
+		return a <= b
+	case token.GTR:
+		return a > b
+	case token.GEQ:
+		return a >= b
+	}
+	return true
+}
+
+// skipByCounter: the last batch list[lo:] is skipped when the If goes the given way; "" when that outcome
+// implies len(list) == lo by the invariant len(list) = lo + counter.
+func (lp *batchLoop) skipByCounter(flush batchDisp, iff *ssa.If, skipOnTrue bool) string {
+	p, h, body, lo := lp.p, lp.h, lp.body, lp.lo
 	x, y, rel, ok := an.DomCond{If: iff, True: skipOnTrue}.Cmp()
 	if !ok {
 		return "the condition of the last batch is not a comparison"
@@ -158,36 +324,18 @@ func batchSkipJustified(p *core.Program, h *ssa.BasicBlock, body map[*ssa.BasicB
 	cnt, isPhi := c17StripConv(x).(*ssa.Phi)
 	k, isC := an.ConstOf(y)
 	if !isPhi || !isC || cnt.Block() != h || !k.IsInt64() {
-		return "the last batch is conditional on something that is not a counter of the loop: " + an.Anon(an.Expr(iff.Cond))
+		return "the last batch is not conditional on a counter of the loop (" + an.Anon(an.Expr(iff.Cond)) + ")"
 	}
 	list, isPhi := flush.sl.X.(*ssa.Phi)
 	if !isPhi || list.Block() != h {
 		return "the list of the conditional last batch is not the one grown in the loop"
 	}
-	holds := func(c int64) bool {
-		switch rel {
-		case token.EQL:
-			return c == k.Int64()
-		case token.NEQ:
-			return c != k.Int64()
-		case token.LSS:
-			return c < k.Int64()
-		case token.LEQ:
-			return c <= k.Int64()
-		case token.GTR:
-			return c > k.Int64()
-		case token.GEQ:
-			return c >= k.Int64()
-		}
-		return true
-	}
 	for c := int64(0); c < 4096; c++ {
-		if holds(c) != (c == 0) {
+		if relHolds(rel, c, k.Int64()) != (c == 0) {
 			return fmt.Sprintf("the last batch is skipped when the counter is %d", c)
 		}
 	}
 	cntKey, loKey := an.Expr(cnt), an.Expr(lo)
-	// invariant len(list) - lo - cnt = 0 on every edge into the head
 	for i, pr := range h.Preds {
 		inL, inO, inC := list.Edges[i], lo.Edges[i], cnt.Edges[i]
 		if !body[pr] {
@@ -203,78 +351,209 @@ func batchSkipJustified(p *core.Program, h *ssa.BasicBlock, body map[*ssa.BasicB
 			}
 			continue
 		}
-		var dLen int64
-		switch v := inL.(type) {
-		case *ssa.Phi:
-			if v != list {
-				return "the list is replaced inside the loop"
+		for _, w := range mergeWays([]ssa.Value{inL, inO, inC}, h) {
+			resolve := func(v ssa.Value) ssa.Value {
+				for d := 0; d < 6; d++ {
+					nv := w.sel(v)
+					if nv == nil || nv == v {
+						break
+					}
+					v = nv
+				}
+				return v
 			}
-		case *ssa.Call:
-			b, isB := v.Call.Value.(*ssa.Builtin)
-			if !isB || b.Name() != "append" || len(v.Call.Args) != 2 || v.Call.Args[0] != ssa.Value(list) {
-				return "the list is replaced inside the loop"
-			}
-			n := int64(-1)
-			if sl, ok := v.Call.Args[1].(*ssa.Slice); ok && sl.Low == nil && sl.High == nil {
-				if al, ok := sl.X.(*ssa.Alloc); ok {
-					if at, ok := an.Deref(al.Type()).Underlying().(interface{ Len() int64 }); ok {
-						n = at.Len()
+			var dLen int64
+			switch v := resolve(inL).(type) {
+			case *ssa.Phi:
+				if v != list {
+					return "the list is replaced inside the loop"
+				}
+			case *ssa.Call:
+				b, isB := v.Call.Value.(*ssa.Builtin)
+				if !isB || b.Name() != "append" || len(v.Call.Args) != 2 || resolve(v.Call.Args[0]) != ssa.Value(list) {
+					return "the list is replaced inside the loop"
+				}
+				n := int64(-1)
+				if sl, ok := v.Call.Args[1].(*ssa.Slice); ok && sl.Low == nil && sl.High == nil {
+					if al, ok := sl.X.(*ssa.Alloc); ok {
+						if at, ok := an.Deref(al.Type()).Underlying().(interface{ Len() int64 }); ok {
+							n = at.Len()
+						}
 					}
 				}
-			}
-			if n < 0 {
-				return "the list grows by an unknown number of elements"
-			}
-			dLen = n
-		default:
-			return "the list is replaced inside the loop"
-		}
-		diff := map[string]int64{"": dLen}
-		for a, c := range an.LinForm(inO) {
-			diff[a] -= c
-		}
-		diff[loKey]++
-		for a, c := range an.LinForm(inC) {
-			diff[a] -= c
-		}
-		diff[cntKey]++
-		// the counter's value where the edge's branch outcomes fix it
-		for _, dc := range an.EdgeConds(pr, h) {
-			cx, cy, crel, ok := dc.Cmp()
-			if !ok || crel != token.EQL {
-				continue
-			}
-			// a*cnt + b == 0 with nothing else in it
-			eq := c13LinDiff(cx, cy)
-			a, b := eq[cntKey], eq[""]
-			delete(eq, cntKey)
-			delete(eq, "")
-			if len(eq) != 0 || a == 0 || b%a != 0 {
-				continue
-			}
-			if _, has := diff[cntKey]; has {
-				diff[""] += diff[cntKey] * (-b / a)
-				delete(diff, cntKey)
-			}
-		}
-		for a, c := range diff {
-			if c != 0 {
-				d := fmt.Sprint(c)
-				if a != "" {
-					d = an.Anon(an.LinString(map[string]int64{a: c}))
+				if n < 0 {
+					return "the list grows by an unknown number of elements"
 				}
-				return fmt.Sprintf("on the way back to the loop head through %s the list grows by %d while position + counter changes differently (difference %s)", p.Pos(blockPos(pr)), dLen, d)
+				dLen = n
+			default:
+				return "the list is replaced inside the loop"
 			}
-		}
-		// the counter never becomes negative: it is reset to a constant >= 0 or stepped upwards
-		lc := an.LinForm(inC)
-		step := lc[cntKey] == 1 && lc[""] >= 0 && len(lc) <= 2 && (len(lc) == 1 || lc[""] > 0)
-		reset := lc[cntKey] == 0 && lc[""] >= 0 && len(lc) <= 1
-		if !step && !reset {
-			return "the counter is not kept non-negative (" + an.Anon(an.LinString(lc)) + ")"
+			diff := map[string]int64{"": dLen}
+			for a, c := range an.LinFormWith(inO, w.sel) {
+				diff[a] -= c
+			}
+			diff[loKey]++
+			lc := an.LinFormWith(inC, w.sel)
+			for a, c := range lc {
+				diff[a] -= c
+			}
+			diff[cntKey]++
+			// the counter's value where the way's branch outcomes fix it
+			for _, dc := range append(an.EdgeConds(pr, h), w.conds...) {
+				cx, cy, crel, ok := dc.Cmp()
+				if !ok || crel != token.EQL {
+					continue
+				}
+				eq := c13LinDiff(cx, cy) // a*cnt + b == 0 with nothing else in it
+				a, b := eq[cntKey], eq[""]
+				delete(eq, cntKey)
+				delete(eq, "")
+				if len(eq) != 0 || a == 0 || b%a != 0 {
+					continue
+				}
+				if _, has := diff[cntKey]; has {
+					diff[""] += diff[cntKey] * (-b / a)
+					delete(diff, cntKey)
+				}
+			}
+			for a, c := range diff {
+				if c != 0 {
+					d := fmt.Sprint(c)
+					if a != "" {
+						d = an.Anon(an.LinString(map[string]int64{a: c}))
+					}
+					return fmt.Sprintf("on the way back to the loop head through %s the list grows by %d while position + counter changes differently (difference %s)", p.Pos(blockPos(pr)), dLen, d)
+				}
+			}
+			// the counter never becomes negative: it is reset to a constant >= 0 or stepped upwards
+			step := lc[cntKey] == 1 && lc[""] >= 0 && len(lc) <= 2 && (len(lc) == 1 || lc[""] > 0)
+			reset := lc[cntKey] == 0 && lc[""] >= 0 && len(lc) <= 1
+			if !step && !reset {
+				return "the counter is not kept non-negative (" + an.Anon(an.LinString(lc)) + ")"
+			}
 		}
 	}
 	return ""
+}
+
+// skipByProgress: the last batch is conditional on "progress > mark", two values carried by the loop.  ""
+// when: both start equal; on a way that hands over a batch the mark is set to the progress and the batch ends
+// at index+1, which is also the next index (so position == index afterwards); on every other way the mark is
+// kept and the progress grows by a term that a dominating test has shown to be non-zero (taken to be a size,
+// not negative); the index starts at 0 and steps by one on every way.  Then progress == mark exactly when
+// position == index, i.e. when every stored element was handed over.
+func (lp *batchLoop) skipByProgress(iff *ssa.If, skipOnTrue bool) string {
+	h, body, lo := lp.h, lp.body, lp.lo
+	x, y, rel, ok := an.DomCond{If: iff, True: skipOnTrue}.Cmp()
+	if !ok {
+		return "the condition of the last batch is not a comparison"
+	}
+	px, okx := c17StripConv(x).(*ssa.Phi)
+	py, oky := c17StripConv(y).(*ssa.Phi)
+	if !okx || !oky || px.Block() != h || py.Block() != h {
+		return "the last batch is not conditional on two values carried by the loop"
+	}
+	try := func(prog, mark *ssa.Phi, rel token.Token) string { // "prog rel mark" holds when the batch is skipped
+		if rel != token.LEQ && rel != token.EQL && rel != token.LSS { // with progress >= mark, "<" never holds: the batch is never skipped
+			return "the last batch is skipped although the progress may exceed its value at the last batch"
+		}
+		// the index: a phi of the head that starts at 0 and steps by one on every way back
+		var idx *ssa.Phi
+		for _, ins := range h.Instrs {
+			ph, isPhi := ins.(*ssa.Phi)
+			if !isPhi {
+				break
+			}
+			if ph == lo || ph == prog || ph == mark {
+				continue
+			}
+			good := true
+			for i, pr := range h.Preds {
+				if !body[pr] {
+					if c, isC := an.ConstOf(ph.Edges[i]); !isC || c.Sign() != 0 {
+						good = false
+					}
+					continue
+				}
+				for _, w := range mergeWays([]ssa.Value{ph.Edges[i]}, h) {
+					f := an.LinFormWith(ph.Edges[i], w.sel)
+					if len(f) != 2 || f[an.Expr(ph)] != 1 || f[""] != 1 {
+						good = false
+					}
+				}
+			}
+			if good {
+				idx = ph
+			}
+		}
+		if idx == nil {
+			return "no index that counts the stored elements"
+		}
+		progKey, markKey, idxKey := an.Expr(prog), an.Expr(mark), an.Expr(idx)
+		for i, pr := range h.Preds {
+			inP, inM := prog.Edges[i], mark.Edges[i]
+			if !body[pr] {
+				if !c13LinEq(an.LinForm(inP), an.LinForm(inM)) {
+					return "progress and mark do not start equal"
+				}
+				continue
+			}
+			for _, w := range mergeWays([]ssa.Value{inP, inM, lo.Edges[i]}, h) {
+				fp, fm := an.LinFormWith(inP, w.sel), an.LinFormWith(inM, w.sel)
+				on := lp.onWay(pr, w)
+				if len(on) > 0 {
+					if !c13LinEq(fp, fm) {
+						return "a batch is handed over without the mark being set to the progress"
+					}
+					hi := an.LinFormWith(on[0].sl.High, w.sel)
+					if len(hi) != 2 || hi[idxKey] != 1 || hi[""] != 1 {
+						return "a batch does not end with the element just stored (" + an.Anon(an.LinString(hi)) + ")"
+					}
+					continue
+				}
+				if len(fm) != 1 || fm[markKey] != 1 {
+					return "the mark changes on a way that hands over no batch"
+				}
+				// progress' = progress + t, t known non-zero
+				var term string
+				for a, c := range fp {
+					if a == progKey && c == 1 {
+						continue
+					}
+					if a == "" || c != 1 || term != "" {
+						return "the progress does not grow by one size per element (" + an.Anon(an.LinString(fp)) + ")"
+					}
+					term = a
+				}
+				if fp[progKey] != 1 || term == "" {
+					return "the progress does not grow by one size per element (" + an.Anon(an.LinString(fp)) + ")"
+				}
+				nonzero := false
+				for _, dc := range append(append(an.EdgeConds(pr, h), w.conds...), an.DomConds(pr)...) {
+					cx, cy, crel, ok := dc.Cmp()
+					if !ok || crel != token.NEQ {
+						continue
+					}
+					if k, isC := an.ConstOf(cy); isC && k.Sign() == 0 && an.Expr(c17StripConv(cx)) == term {
+						nonzero = true
+					}
+				}
+				if !nonzero {
+					return "the size added to the progress is not known to be non-zero"
+				}
+			}
+		}
+		return ""
+	}
+	w1 := try(px, py, rel)
+	if w1 == "" {
+		return ""
+	}
+	flip := map[token.Token]token.Token{token.LSS: token.GTR, token.GTR: token.LSS, token.LEQ: token.GEQ, token.GEQ: token.LEQ, token.EQL: token.EQL, token.NEQ: token.NEQ}
+	if w2 := try(py, px, flip[rel]); w2 == "" {
+		return ""
+	}
+	return w1
 }
 
 func blockPos(b *ssa.BasicBlock) token.Pos {
@@ -349,4 +628,164 @@ func noAppendOnPositioned(r *core.Run, p *core.Program, rule, pkgSuffix string, 
 		}
 	}
 	r.Check(n >= floor, rule, "positioned-not-append/sites", "-", fmt.Sprintf("%d opens of positioned files", n), fmt.Sprintf("%d opens of positioned files found (expected at least %d)", n, floor))
+}
+
+// sentBufferNotReused: the bytes of a bytes.Buffer that were sent to another goroutine ("ch <- buf.Bytes()")
+// still are the buffer's storage.  The sender must not write into that buffer again (Write, Reset followed by
+// writes, ...): it has to go on with a new buffer.  Decided by following the buffer object forward from the
+// send - through the variable that holds it (an SSA value, a phi on the way round a loop, a captured or local
+// cell) - and reporting any call that is handed the object other than Bytes/Len/Cap/String.
+func sentBufferNotReused(r *core.Run, p *core.Program, rule string, pkgSuffixes []string, floor int) {
+	readOnly := map[string]bool{"Bytes": true, "Len": true, "Cap": true, "String": true, "Available": true}
+	n := 0
+	perFn := map[*ssa.Function]int{}
+	for _, fn := range p.ModuleFuncs() {
+		okPkg := false
+		for _, s := range pkgSuffixes {
+			if fn.Pkg != nil && strings.HasSuffix(fn.Pkg.Pkg.Path(), s) {
+				okPkg = true
+			}
+		}
+		if !okPkg || fn.Blocks == nil {
+			continue
+		}
+		for _, b := range fn.Blocks {
+			for idx, ins := range b.Instrs {
+				snd, ok := ins.(*ssa.Send)
+				if !ok {
+					continue
+				}
+				bc, ok := snd.X.(*ssa.Call)
+				if !ok || an.CallName(bc) != "(*bytes.Buffer).Bytes" {
+					continue
+				}
+				n++
+				perFn[fn]++
+				key := fmt.Sprintf("sent-buffer-not-reused/%s#%d", core.FuncName(fn), perFn[fn])
+				bad := sentBufferFollow(p, fn, b, idx, bc.Call.Args[0], readOnly)
+				r.Check(bad == "", rule, key, p.Pos(snd.Pos()), "after the send the sender goes on with another buffer", "the buffer whose bytes were sent to another goroutine is written again by the sender: "+bad)
+			}
+		}
+	}
+	r.Check(n >= floor, rule, "sent-buffer-not-reused/sites", "-", fmt.Sprintf("%d sends of a buffer's bytes", n), fmt.Sprintf("%d sends of a buffer's bytes found (expected at least %d)", n, floor))
+}
+
+func sentBufferFollow(p *core.Program, fn *ssa.Function, b0 *ssa.BasicBlock, idx int, obj ssa.Value, readOnly map[string]bool) string {
+	type state struct {
+		vals  map[ssa.Value]bool
+		cells map[ssa.Value]bool
+	}
+	clone := func(s state) state {
+		n := state{map[ssa.Value]bool{}, map[ssa.Value]bool{}}
+		for k := range s.vals {
+			n.vals[k] = true
+		}
+		for k := range s.cells {
+			n.cells[k] = true
+		}
+		return n
+	}
+	keyOf := func(s state) string {
+		var ks []string
+		for k := range s.vals {
+			ks = append(ks, "v"+k.Name())
+		}
+		for k := range s.cells {
+			ks = append(ks, "c"+k.Name())
+		}
+		sort.Strings(ks)
+		return strings.Join(ks, ",")
+	}
+	init := state{map[ssa.Value]bool{obj: true}, map[ssa.Value]bool{}}
+	if ld, ok := obj.(*ssa.UnOp); ok && ld.Op == token.MUL {
+		init.cells[ld.X] = true
+	}
+	bad := ""
+	// run the instructions of b from index i on state s; returns the out state
+	run := func(b *ssa.BasicBlock, from int, s state) state {
+		for _, ins := range b.Instrs[from:] {
+			switch x := ins.(type) {
+			case *ssa.UnOp:
+				if x.Op == token.MUL && s.cells[x.X] {
+					s.vals[x] = true
+				}
+			case *ssa.Store:
+				if s.vals[x.Val] {
+					s.cells[x.Addr] = true
+				} else {
+					delete(s.cells, x.Addr)
+				}
+			case ssa.CallInstruction:
+				com := x.Common()
+				for _, a := range com.Args {
+					if !s.vals[c02Strip(a)] {
+						continue
+					}
+					name := an.CallName(x)
+					short := name[strings.LastIndex(name, ".")+1:]
+					if strings.HasPrefix(name, "(*bytes.Buffer).") && readOnly[short] {
+						continue
+					}
+					if bad == "" {
+						bad = name + " at " + p.Pos(an.InstrPos(ins))
+					}
+				}
+			}
+		}
+		return s
+	}
+	type item struct {
+		b *ssa.BasicBlock
+		s state
+	}
+	seen := map[string]bool{}
+	out := run(b0, idx+1, clone(init))
+	var work []item
+	push := func(from, to *ssa.BasicBlock, s state) {
+		// entering 'to' from 'from': phis are recomputed
+		n := clone(s)
+		ei := -1
+		for k, pr := range to.Preds {
+			if pr == from {
+				ei = k
+			}
+		}
+		var phis []*ssa.Phi
+		for _, ins := range to.Instrs {
+			ph, ok := ins.(*ssa.Phi)
+			if !ok {
+				break
+			}
+			phis = append(phis, ph)
+		}
+		for _, ph := range phis {
+			delete(n.vals, ph)
+		}
+		for _, ph := range phis {
+			if ei >= 0 && s.vals[ph.Edges[ei]] {
+				n.vals[ph] = true
+			}
+		}
+		if len(n.vals) == 0 && len(n.cells) == 0 {
+			return
+		}
+		k := fmt.Sprintf("%d|%s", to.Index, keyOf(n))
+		if seen[k] {
+			return
+		}
+		seen[k] = true
+		work = append(work, item{to, n})
+	}
+	for _, s := range b0.Succs {
+		push(b0, s, out)
+	}
+	for len(work) > 0 && bad == "" {
+		it := work[len(work)-1]
+		work = work[:len(work)-1]
+		o := run(it.b, 0, it.s)
+		for _, s := range it.b.Succs {
+			push(it.b, s, o)
+		}
+	}
+	return bad
 }
